@@ -259,6 +259,7 @@ Proof.
   - dmatch; cbn [fst]; st_simpl; intros H; left; split; try exact H; intros; discriminate.
   - dmatch; cbn [fst]; st_simpl; intros H; left; split; try exact H; intros; discriminate.
   - dmatch; cbn [fst]; st_simpl; intros H; left; split; try exact H; intros; discriminate.
+  - dmatch; cbn [fst]; st_simpl; intros H; left; split; try exact H; intros; discriminate.
 Qed.
 
 Lemma act_mid e s dt i :
@@ -370,4 +371,21 @@ Proof.
   assert (ST : s_T sm = s_T s1) by (subst sm; destruct (ka_activity_of (with_now s (s_now s + dt)) e); reflexivity).
   pose proof (poll_consts sm) as PC. destruct (poll_timers sm) as [s2 o2]. cbn [fst] in *.
   destruct PC as [_ [PT _]]. rewrite PT, ST, CT. reflexivity.
+Qed.
+
+(* half-closing a held keep-alive substream (shutdown of the write half while it is still read)
+   releases nothing: the lifetime permit goes only when the substream is dropped *)
+Lemma shut_keeps s dt c :
+  0 < ch_held_of c (s_chans s) ->
+  s_chans (fst (step s dt (EShutSub c))) = s_chans s /\
+  s_pend (fst (step s dt (EShutSub c))) = s_pend s /\
+  0 < strong (fst (step s dt (EShutSub c))) c.
+Proof.
+  intros H. unfold step. cbn [handle_ev ka_activity_of]. st_simpl.
+  unfold ch_held_of in H. destruct (find_ch c (s_chans s)) as [x|] eqn:F; [|lia].
+  assert (HX : 0 <? ch_held x = true) by (apply N.ltb_lt; exact H). rewrite HX.
+  pose proof (poll_consts (with_now s (s_now s + dt))) as PC.
+  destruct (poll_timers (with_now s (s_now s + dt))) as [s2 o2]. cbn [fst] in *. st_simpl.
+  destruct PC as [_ [_ [_ [_ [_ [PP PCH]]]]]]. split; [exact PCH|]. split; [exact PP|].
+  apply busy_strong. right. rewrite PCH. unfold ch_held_of. rewrite F. exact H.
 Qed.
